@@ -234,3 +234,48 @@ proof! {
         std::mem::forget(dctx);
     }
 }
+
+
+/// Histories of offers, independent of any graph codec: a symbolic sequence of offers of three
+/// distinct objects; the stream must contain the new-marker on the first offer of an object and
+/// its 1-based first-encounter number on every later one (numbers count distinct objects only).
+fn offer_sequence(n: usize) {
+    let objs: [&'static u8; 3] = [Box::leak(Box::new(1u8)), Box::leak(Box::new(2u8)), Box::leak(Box::new(3u8))];
+    let mut sctx = SerializationContext::new(Vec::new());
+    let mut first_id: [u32; 3] = [0; 3];
+    let mut distinct: u32 = 0;
+    let mut expected = Buf::new();
+    let mut i = 0;
+    while i < n {
+        let k = sym::below(3) as usize;
+        let is_new = match sctx.store_ref_or_object(objs[k]) {
+            Ok(b) => b,
+            Err(e) => { std::mem::forget(e); assert!(false); false }
+        };
+        if first_id[k] == 0 {
+            distinct += 1;
+            first_id[k] = distinct;
+            assert!(is_new, "the first offer of an object was not reported as new");
+            expected.varu(0);
+        } else {
+            assert!(!is_new, "a repeated offer was reported as new");
+            expected.varu(first_id[k]);
+        }
+        i += 1;
+    }
+    let out = sctx.into_output();
+    crate::checks::assert_bytes_eq(&out, &expected);
+    cover!(distinct == 3);
+    cover!(distinct == 1);
+    std::mem::forget(out);
+}
+
+proof! {
+    //@ props=C10 tier=quick bounds=history:4-offers-each-of-any-of-3-objects(symbolic) cap=900
+    fn c10_offer_sequence_4() unwind(8) { offer_sequence(4); }
+}
+
+proof! {
+    //@ props=C10 tier=thorough bounds=history:6-offers-each-of-any-of-3-objects(symbolic) cap=2400
+    fn c10_offer_sequence_6() unwind(10) { offer_sequence(6); }
+}
